@@ -70,6 +70,7 @@ Inductive nop :=
 | Partition (a b : N)
 | Heal (a b : N)
 | FailedArrival (a b : N)                     (* a's connection reaches b and is admitted, but anemo's handshake never completes *)
+| Call (a b : N)                              (* a starts a request that stays inside b's handler (work in flight on the connection) *)
 | Quiesce.                                    (* longer than the idle timeout passes *)
 
 Record world := mkWorld { w_net : net; w_cut : list (N * N) }.
@@ -140,6 +141,8 @@ Definition step (w : world) (o : nop) : world * option dial_result :=
       | None => (w, None)
       end
   | FailedArrival _ _ => (w, None)      (* nothing is registered, counted or announced *)
+  | Call _ _ => (w, None)               (* work in flight is no part of the connection views: whatever ends the
+                                           connection later is reported exactly as on an idle connection *)
   | Partition a b => (mkWorld (w_net w) ((a, b) :: w_cut w), None)
   | Heal a b =>
       (mkWorld (w_net w)
